@@ -176,11 +176,11 @@ def concretise(text, rng, style=None):
             if dlm == "COMMA":
                 sep = rng.choice([",", ", ", " , "])
             elif dlm == "TAB":
-                sep = "\t"
+                sep = rng.choice(["\t", "\t", " \t", "\t ", " \t "])       # with or without padding blanks
             else:
                 sep = rng.choice([" ", "   ", "\t", " \t "])
-            lead = rng.choice(["", " ", "    "]) if dlm == "SPACE" else ""
-            trail = rng.choice(["", " ", "  "]) if dlm == "SPACE" else ""
+            lead = rng.choice(["", " ", "    "]) if dlm == "SPACE" else rng.choice(["", "", " "])
+            trail = rng.choice(["", " ", "  "]) if dlm == "SPACE" else rng.choice(["", "", " "])
             out.append(lead + sep.join(toks) + trail)
         else:
             raise tlc.MachineryError("unknown line kind %r" % k)
